@@ -85,3 +85,41 @@ def make_state_predicate(allowed_steps):
                 return "lifecycle step into %s from a state the property does not allow" % new_name
         return True
     return pred
+
+
+def make_crypto_gate(method_kinds):
+    """C04: every call of a cryptographic primitive with a stored object's value as key is
+    dominated by: state == ACTIVE, the usage-mask bit, and (where given) the object kind.
+    method_kinds: {crypto method: (mask name, ObjectType name | None, key argument position/name)}"""
+    def pred(ev, outcome, exc, path):
+        from kmip.core import enums
+        loaded = [e[3] for e in ev if e[0] == 'db.load']
+        for e in ev:
+            if e[0] != 'crypto':
+                continue
+            name, args, kw = e[1], e[2], e[3]
+            if name not in method_kinds:
+                continue
+            mask, kind, keypos = method_kinds[name]
+            key = kw.get(keypos) if isinstance(keypos, str) else (args[keypos] if len(args) > keypos else None)
+            owners = [mo for mo in loaded if mo.fields.get('value') is key]
+            if not owners:
+                return "%s() is called with a key that is not the value of an object loaded under access control" % name
+            mo = owners[0]
+            st = mo.fields.get('state')
+            if st is None:
+                return "%s() uses an object whose state was never examined" % name
+            if hasattr(st, 't'):
+                if not path.is_valid(st.t == enums.State.ACTIVE.value):
+                    return "%s() may run on a key that is not Active" % name
+            elif st is not enums.State.ACTIVE:
+                return "%s() runs on a key in state %s" % (name, st)
+            masks = mo.fields.get('cryptographic_usage_masks')
+            bit = getattr(enums.CryptographicUsageMask, mask)
+            ent = getattr(masks, 'memo', {}).get(('c', bit))
+            if ent is None or not path.is_valid(z3.Not(ent.isnone)):
+                return "%s() may run although the %s bit is not in the usage mask" % (name, mask)
+            if kind is not None and mo.fields.get('_object_type') is not getattr(enums.ObjectType, kind):
+                return "%s() runs on a %s, the property requires a %s" % (name, mo.fields.get('_object_type'), kind)
+        return True
+    return pred
